@@ -34,6 +34,28 @@ def by(desc, name):
     return next(x for x in desc if x["name"] == name)
 
 
+def reorder(desc, mode, rng=None):
+    """The same description with its lines in another order (a node prints its table in hash order: a replica's
+    line may precede its master's).  The abstract table (Topology!TableOf) does not depend on the order."""
+    d = copy.deepcopy(desc)
+    if mode == "replicas-first":
+        return [x for x in d if x["role"] == "slave"] + [x for x in d if x["role"] != "slave"]
+    if mode == "interleaved":
+        out, used = [], set()
+        for m in [x for x in d if x["role"] != "slave"]:
+            reps = [x for x in d if x["role"] == "slave" and x["masterOf"] == m["name"]]
+            out += reps[:(len(reps) + 1) // 2] + [m] + reps[(len(reps) + 1) // 2:]
+            used |= {x["name"] for x in reps} | {m["name"]}
+        return out + [x for x in d if x["name"] not in used]
+    if mode == "shuffle":
+        rng.shuffle(d)
+        return d
+    return d
+
+
+ORDERS = ["", "replicas-first", "interleaved", "shuffle"]
+
+
 def catalogue(repl=REPL):
     """(label, description, reply kind) - descriptions are complete replacements of the published topology."""
     D = default_desc(repl)
@@ -78,6 +100,9 @@ def catalogue(repl=REPL):
     mut("node-removed", lambda d: [x for x in d if x["name"] != "n3" and x["masterOf"] != "n3"][:0] or
         ([by(d, "n2").update(ranges=[[5461, 16383]])] and [x for x in d if x["name"] != "n3" and x["masterOf"] != "n3"]))
     mut("new-master", lambda d: (by(d, "n3").update(ranges=[[10923, 14000]]), d.append(node("x1", "master", ranges=[(14001, 16383)]))) and None)
+    for mode in ("replicas-first", "interleaved"):
+        out.append(("order-" + mode, reorder(D, mode), ""))
+        out.append(("failover-" + mode, reorder(next(c[1] for c in out if c[0] == "failover"), mode), ""))
     for kind in ("err", "nil", "ok", "big", "empty"):
         out.append(("reply-" + kind, copy.deepcopy(D), kind))
     return out
@@ -132,6 +157,16 @@ def history_scenario(sid, hist, rng):
     return {"id": sid, "role": "", "steps": steps}
 
 
+def once_each_scenario(sid, hist):
+    """Every description of the history is seen by exactly one probe; then the default one until it is in force."""
+    steps = [step([st(op="topo", desc=default_desc(), kind=""), st(op="refresh")])]
+    for label, desc, kind in hist:
+        steps.append(step([st(op="topo", desc=desc, kind=kind), st(op="refresh", count=1)]))
+    steps.append(step([st(op="topo", desc=default_desc(), kind=""), st(op="refresh", count=1)]))
+    steps.append(step([st(op="refresh")]))
+    return {"id": sid, "role": "", "steps": steps}
+
+
 def removal_scenario(sid):
     """A request in flight on a silent node while the topology stops listing that node (C15)."""
     cat = {c[0]: c for c in catalogue()}
@@ -144,9 +179,9 @@ def removal_scenario(sid):
     return {"id": sid, "role": "", "steps": steps}
 
 
-def spread_scenario(sid, pattern, master_range, n, rng):
+def spread_scenario(sid, pattern, master_range, n, rng, order="", repl=REPL):
     lo, hi = master_range
-    steps = [step([st(op="topo", desc=default_desc(), kind=""), st(op="refresh")])]
+    steps = [step([st(op="topo", desc=reorder(default_desc(repl), order, rng), kind=""), st(op="refresh")])]
     reqs = []
     for k in range(n):
         s = rng.randrange(lo, hi + 1)
@@ -184,6 +219,7 @@ def run_generic(pid, tier, seed):
             nh = 20 if q else 400
             for k in range(nh):
                 h = [rng.choice(cat) for _ in range(rng.choice([2, 3, 3, 4]))]
+                h = [(c[0], reorder(c[1], rng.choice(ORDERS), rng), c[2]) for c in h]
                 scs.append(history_scenario("hist-%d-%s" % (k, "+".join(x[0] for x in h)), h, rng))
             # a replica first seen loading, later healthy; a known replica turning loading stays
             lab = {c[0]: c for c in cat}
@@ -191,6 +227,17 @@ def run_generic(pid, tier, seed):
             scs.append(history_scenario("replica-recovers-2", [lab["new-replica-link-down"], lab["reply-err"], lab["new-replica-healthy"]], rng))
             scs.append(history_scenario("bad-then-good", [lab["reply-err"], lab["slot-moved"], lab["reply-nil"], lab["reply-ok"], lab["unclaimed-range"]], rng))
             scs.append(removal_scenario("node-removed-in-flight"))
+            # ordered pairs of adoptable descriptions between two sightings of the default one (fail-over then fail-back,
+            # grow then shrink ...): what is adopted must not depend on how the description before it was adopted
+            adoptable = [c for c in cat if c[2] == "" and not c[0].startswith(("slot-out", "slot-far", "fewer", "short-master"))]
+            pairs = [(a, b) for a in adoptable for b in adoptable if a[0] != b[0]]
+            rng.shuffle(pairs)
+            first = [("failover", "slot-moved"), ("node-removed", "slot-moved"), ("new-replica-healthy", "split-ranges"),
+                     ("new-master", "unclaimed-range"), ("slot-moved", "failover"), ("replica-fail-flag", "slot-moved")]
+            chosen = [(lab[a], lab[b]) for a, b in first] + pairs[:6 if q else 250]
+            for a, b in chosen:
+                scs.append(history_scenario("pair-%s+%s" % (a[0], b[0]), [a, b], rng))
+                scs.append(once_each_scenario("once-%s+%s" % (a[0], b[0]), [a, b]))
             groups.append((dict(CFG), scs, "topo", {}))
             if pid == "C04":
                 sub = scs[:len(cat)] if q else scs
@@ -201,23 +248,19 @@ def run_generic(pid, tier, seed):
             ranges = [(0, 5460), (5461, 10922), (10923, 16383)]
             for k, pat in enumerate(["reads", "set-get", "ping-get", "set-get-get", "mget"]):
                 for m in range(3 if not q else 2):
-                    scs.append(spread_scenario("spread-%s-m%d" % (pat, m), pat, ranges[(m + k) % 3], 150 if pat != "reads" else 300, rng))
+                    scs.append(spread_scenario("spread-%s-m%d" % (pat, m), pat, ranges[(m + k) % 3], 150 if pat != "reads" else 300, rng,
+                                               order=ORDERS[(m + k) % 4]))
             groups.append((dict(CFG), scs, "spread2", {}))
             c3 = dict(CFG, replicas=3)
             scs3 = []
             for k, pat in enumerate(["reads", "set-get", "set-get-get", "ping-get"]):
-                scs3.append(spread_scenario("spread3-%s" % pat, pat, ranges[k % 3], 150 if pat != "reads" else 300, rng))
+                scs3.append(spread_scenario("spread3-%s" % pat, pat, ranges[k % 3], 150 if pat != "reads" else 300, rng,
+                                            order=ORDERS[(k + 1) % 4], repl=3))
             groups.append((c3, scs3, "spread3", {}))
         viol, other = [], {}
         tot = {"states": 0, "transitions": 0, "traces": 0, "events": 0, "crashes": 0, "unrealised": 0, "harness_errors": [], "nontrivial": 0}
         samples = []
         for cfg, scs, tag, consts in groups:
-            if pid == "C20" and tag == "spread3":
-                for s in scs:  # the default description of this configuration has three replicas per master
-                    for stp in s["steps"]:
-                        for x in stp["stim"]:
-                            if x["op"] == "topo":
-                                x["desc"] = default_desc(3)
             r = common.replay_and_validate(cfg, scs, wd, tag, spec="TopoTrace", cfgfile="TopoTrace.cfg", consts=consts, par=min(8, len(scs)))
             for kk in ("states", "transitions", "traces", "events", "unrealised"):
                 tot[kk] += r[kk]
@@ -248,8 +291,10 @@ def auth_scenario(sid, hist):
     cn = 0
     # start from a known state
     hist = [(False, [], "inplace")] + list(hist)
-    for k, (enable, ips, mode) in enumerate(hist):
-        steps.append({"stim": [st(op="authfile", kind=mode, count=1 if enable else 0, reqs=[{"k": "", "slots": UNIVERSE, "args": list(ips), "dups": []}])],
+    for k, h in enumerate(hist):
+        enable, ips, mode = h[:3]
+        form = h[3] if len(h) > 3 else ""
+        steps.append({"stim": [st(op="authfile", kind=mode, cls=form, count=1 if enable else 0, reqs=[{"k": "", "slots": UNIVERSE, "args": list(ips), "dups": []}])],
                       "settle": False, "noIter": True})
     # the last state is the one the clients experience (earlier ones are checked through the settled admitted set)
     for ip in UNIVERSE:
@@ -282,7 +327,7 @@ def run_c18(tier, seed):
             h = []
             for _ in range(rng.choice([2, 3, 4])):
                 en, ips = rng.choice(states)
-                h.append((en, ips, rng.choice(["inplace", "inplace", "rename"])))
+                h.append((en, ips, rng.choice(["inplace", "inplace", "rename"]), rng.choice(["", "", "", "noenable", "nolist", "commented"])))
             scs.append(auth_scenario("auth-hist-%d" % k, h))
         # directed: remove while disabled then enable; remove one of two; add then remove
         A, B = UNIVERSE[0], UNIVERSE[1]
@@ -290,6 +335,11 @@ def run_c18(tier, seed):
         scs.append(auth_scenario("auth-remove-one", [(True, [A, B], "inplace"), (True, [A], "inplace")]))
         scs.append(auth_scenario("auth-remove-by-rename", [(True, [A, B], "rename"), (True, [B], "rename")]))
         scs.append(auth_scenario("auth-empty-list", [(True, [A], "inplace"), (True, [], "inplace")]))
+        # keys that disappear from the file: the switch line removed (= off), the list removed (= nobody), both commented out
+        for mode in ("inplace", "rename"):
+            scs.append(auth_scenario("auth-enable-line-removed-" + mode, [(True, [A], mode), (True, [A], mode, "noenable")]))
+            scs.append(auth_scenario("auth-list-removed-" + mode, [(True, [A, B], mode), (True, [A, B], mode, "nolist")]))
+            scs.append(auth_scenario("auth-commented-out-" + mode, [(True, [A], mode), (True, [A], mode, "commented"), (True, [B], mode)]))
         cfg = {"masters": 3, "mode": "step", "authIpDir": "auto"}
         r = common.replay_and_validate(cfg, scs, wd, "auth", spec="AuthTrace", cfgfile="AuthTrace.cfg", par=8)
         viol = [v for v in r["viol"] if v["prop"] in ("C18", "DEAD")]
